@@ -66,7 +66,10 @@ def g_km(draw):
             c["init"] = {"method": "random", "init": None, "seed": c["init"]["seed"]}
     c["thr"] = gen.choice(draw, [None, 1e-1, 1e-2, 0.3, 1e-5])
     c["cap"] = gen.choice(draw, [1, 2, 3, 5, 8, 12])
-    c["chunks"] = gen.with_empty_chunks(draw, gen.composition(draw, X.shape[0], max_parts=6))
+    c["chunks"] = gen.composition(draw, X.shape[0], max_parts=6)
+    if c["init"]["method"] == "array":
+        # dask-ml's seeded initialisers cannot handle zero-length blocks (third party): only with explicit centroids
+        c["chunks"] = gen.with_empty_chunks(draw, c["chunks"])
     c["fchunks"] = gen.composition(draw, X.shape[1], max_parts=3)
     c["sched"] = schedule(draw)
     return c
